@@ -489,6 +489,9 @@ def replay_case(case):
         return replay_time(case)
     if kind == "doc":
         return replay_doc(case)
+    if kind == "two":
+        with patched_requests():
+            return replay_two(case["bhv"])
     if kind == "nested_probe":
         return None if nested_user_inputs_probe() else {"field": "parse_dates.userInputs", "spec": "aware datetimes", "impl": "strings"}
     raise ValueError("unknown case kind %r" % kind)
@@ -510,6 +513,8 @@ def _key(case, m):
         return "C20:%s" % f.replace(".", ":")
     if case["kind"] == "doc":
         return "C20:parse_dates:%s" % ("timeseries" if ".timestamps" in f else "field")
+    if case["kind"] == "two":
+        return "C20:%s" % m["key"]
     return "C20:time:%s" % f.split(".")[0]
 
 
@@ -565,6 +570,113 @@ def check_C20(tier, seed):
         pool.shutdown(wait=True)
 
 
+# ----------------------------------------------------------------------------- two overlapping generators
+TWO_SITES = {1: "caltech", 2: "jpl"}
+
+
+class TwoServer:
+    """Serves the two result sets of one DataClientTwo.tla behaviour (stateless: a function of the URL)."""
+
+    def __init__(self, sizes):
+        self.pages = {}
+        for g in (1, 2):
+            k0, pg = 0, []
+            for n in sizes[g]:
+                pg.append(list(range(k0 + 1, k0 + n + 1)))
+                k0 += n
+            self.pages[TWO_SITES[g]] = pg
+        self.log = []
+
+    def request(self, method, url, **kw):
+        full, path, query = normalise(method, url, kw.get("params"))
+        site = path.rstrip("/").split("/")[-1]
+        qd = dict(query)
+        k = int(qd.get("page", "1"))
+        self.log.append((site, k))
+        pages = self.pages[site]
+        base = "sessions/%s?max_results=%s" % (site, qd.get("max_results", "100"))
+        links = {"parent": {"title": "home", "href": "/"}, "self": {"title": "sessions", "href": base}}
+        if k < len(pages):
+            links["next"] = {"title": "next page", "href": base + "&page=%d" % (k + 1)}
+            links["last"] = {"title": "last page", "href": base + "&page=%d" % len(pages)}
+        items = [{"_id": "%s-%04d" % (site, i), "sessionID": "%s-%d" % (site, i), "docIndex": i, "siteName": site,
+                  "timezone": "America/Los_Angeles", "connectionTime": "Wed, 25 Apr 2018 18:08:%02d GMT" % (i % 60),
+                  "kWhDelivered": 1.0 + i} for i in pages[k - 1]]
+        return FakeServer._response(None, url, 200, {"_items": items, "_links": links, "_meta": {"page": k}})
+
+
+def replay_two(b):
+    """Two get_sessions generators on ONE DataClient, pulled in the order the specification chose."""
+    from acnportal.acndata import DataClient
+    from datetime import datetime as _dt
+    sizes = {1: list(b["sizes"][0]), 2: list(b["sizes"][1])} if isinstance(b["sizes"], list) else \
+        {int(k): list(v) for k, v in b["sizes"].items()}
+    srv = TwoServer(sizes)
+    _CURRENT["server"] = srv
+    client = DataClient(TOKEN)
+    gens = {g: client.get_sessions(TWO_SITES[g]) for g in (1, 2)}
+    for n, pull in enumerate(b["pulls"]):
+        g = pull["g"]
+        before = len(srv.log)
+        try:
+            doc = next(gens[g])
+            kind = "yield"
+        except StopIteration:
+            doc, kind = None, "stop"
+        fetched = srv.log[before:]
+        want_f = [(TWO_SITES[g], k) for k in pull["fetched"]]
+        if kind != pull["kind"]:
+            return {"field": "two:outcome", "pull": n, "generator": g, "spec": pull["kind"], "impl": kind,
+                    "key": "two-generators:outcome"}
+        if kind == "yield":
+            got = (doc.get("siteName"), doc.get("docIndex"))
+            if got != (TWO_SITES[g], pull["doc"]):
+                return {"field": "two:document", "pull": n, "generator": g, "spec": [TWO_SITES[g], pull["doc"]],
+                        "impl": list(got), "key": "two-generators:document"}
+            if not isinstance(doc.get("connectionTime"), _dt) or doc["connectionTime"].tzinfo is None:
+                return {"field": "two:dates", "pull": n, "generator": g, "spec": "aware datetime",
+                        "impl": repr(doc.get("connectionTime")), "key": "two-generators:dates"}
+        if fetched != want_f:
+            return {"field": "two:requests", "pull": n, "generator": g, "spec": want_f, "impl": fetched,
+                    "key": "two-generators:requests"}
+    return None
+
+
+def two_generators(rep, thorough, W):
+    """DataClientTwo.tla: two generators of one client, every pair of pagings, every order of pulls."""
+    ov = {"MaxPageSize": "= 2"} if thorough else {}
+    mc = run_tlc("MC_DataClientTwo", "DataClientTwo_mc", workers=W, overrides=ov, coverage=True)
+    rep.add_tlc(mc, "two overlapping generators of one client: OwnPrefix, CompleteAtStop, OneRequestPerPage, StopOnlyAtEnd "
+                    "for every pair of pagings and every order of pulls", "DataClientTwo_mc %s" % json.dumps(ov),
+                require_actions=["Pull", "Finish"])
+    require_ok(mc, "DataClientTwo model checking")
+    live = run_tlc("MC_DataClientTwo", "DataClientTwo_live", workers=W)
+    rep.add_tlc(live, "BothFinish under weak fairness of the consumer", "DataClientTwo_live")
+    require_ok(live, "DataClientTwo liveness")
+    gen = run_tlc("MC_DataClientTwo", "DataClientTwo_gen", workers=1, timeout=3000)
+    rep.add_tlc(gen, "every behaviour emitted (pair of pagings x order of pulls, stopped anywhere)", "DataClientTwo_gen")
+    require_ok(gen, "DataClientTwo generation")
+    n = inter = 0
+    with patched_requests():
+        for b in gen.emitted.get("BHV", []):
+            # behaviours that are prefixes of longer ones add nothing: replay the maximal ones and a sample of the rest
+            both = all(b["done"]) if isinstance(b["done"], list) else all(b["done"].values())
+            if not both and (len(b["pulls"]) * 7 + sum(p["g"] for p in b["pulls"])) % 5:
+                continue
+            m = replay_two(b)
+            rep.replayed += 1
+            n += 1
+            gs = [p["g"] for p in b["pulls"]]
+            mixed = any(a != c for a, c in zip(gs, gs[1:]))
+            inter += mixed
+            rep.count("two-" + jhash(b), mixed)
+            if m is not None:
+                _violate(rep, {"kind": "two", "bhv": b}, m)
+    if inter == 0:
+        raise RuntimeError("vacuous: no interleaved behaviour replayed")
+    rep.notes.append("%d behaviours of two overlapping generators on one client replayed (%d with interleaved pulls)" % (n, inter))
+
+
 def _check_C20(rep, thorough, W, fut_walk, fut_time, ov):
     # ---- Part 1: protocol
     # (TLC's -coverage slows these string-heavy specifications down tenfold; per-action counts are taken from the
@@ -613,6 +725,7 @@ def _check_C20(rep, thorough, W, fut_walk, fut_time, ov):
                     samples.append({kk: vv for kk, vv in b.items() if kk != "docs"})
     for s_ in samples:
         rep.sample(s_)
+    two_generators(rep, thorough, W)
 
     # ---- Part 2: time
     walk = fut_walk.result()
